@@ -506,6 +506,10 @@ func (a *Authenticator) unpack(buf []byte, pos int) error {
 	cipherTextLen := binary.BigEndian.Uint16(buf[pos+2:])
 	pos += 4
 
+	if int(nonceLen)+int(cipherTextLen) > len(buf)-pos {
+		return errUnexpectedExtHdrLength
+	}
+
 	nonce := make([]byte, nonceLen)
 	n := copy(nonce, buf[pos:])
 	a.Nonce = nonce
